@@ -4,6 +4,9 @@ thread start, file write).  Enabledness is evaluated on the real queue objects w
 import hashlib
 import queue as _queue
 import threading
+import time as _time
+
+_real_sleep = _time.sleep
 
 
 class Unwind(BaseException):
@@ -49,6 +52,9 @@ class Sched:
         self.writes_after_return = []
         self.returned = False
         self.timeouts_fired = 0
+        self.peeks = 0
+        self.sleeps = 0
+        self._tl = threading.local()
         self.timed_waits = 0
         self.main_tid = threading.get_ident()
         t = _T('main', self.main_tid)
@@ -74,7 +80,8 @@ class Sched:
             if self.unwind:
                 raise Unwind()
             me.waiting = False
-            me.ops += 1
+            if not label.startswith(('sleep', 'peek')):
+                me.ops += 1          # (polling - sleeping, looking at a queue - changes nothing: the abstract state must not grow with it)
 
     def register_child(self, name):
         tid = threading.get_ident()
@@ -123,14 +130,25 @@ class Sched:
     # -- scheduling ---------------------------------------------------------------------------
     def abstract_state(self):
         ts = tuple(sorted((t.name, t.ops, t.label, t.last, t.done) for t in self.threads.values()))
-        qs = tuple((tuple(_h(x) for x in list(q.queue)), q.unfinished_tasks) for q in self.queues)
+        qs = tuple((tuple(_h(x) for x in list(q.queue)), q.__dict__.get('_vz_unfinished', 0)) for q in self.queues)
         return hash((ts, qs, self.fhash, self.nwrites))
+
+    def _is_enabled(self, t):
+        """enabledness predicates are evaluated by the scheduler (whatever thread runs it): not an observation by the program"""
+        self._tl.evaluating = True
+        try:
+            return bool(t.enabled())
+        finally:
+            self._tl.evaluating = False
+
+    def evaluating(self):
+        return getattr(self._tl, 'evaluating', False)
 
     def _dispatch(self):
         live = [t for t in self.threads.values() if not t.done]
         if not live or any(not t.waiting for t in live):
             return
-        en = sorted([t for t in live if t.enabled()], key=lambda t: t.name)
+        en = sorted([t for t in live if self._is_enabled(t)], key=lambda t: t.name)
         if not en:
             self.deadlock = True
             self.blocked = [(t.name, t.label) for t in live]
@@ -157,7 +175,7 @@ class Sched:
                 while any(not t.waiting for t in live):
                     self.cv.wait(0.5)
                     live = [t for t in self.threads.values() if not t.done]
-                en = sorted([t for t in live if t.enabled()], key=lambda t: t.name)
+                en = sorted([t for t in live if self._is_enabled(t)], key=lambda t: t.name)
                 if not en:
                     break
                 t = en[0]
@@ -228,29 +246,79 @@ def instrument(S):
                 self._vz_wait(lambda: timeout is not None or bool(predicate()), 'cond_wait_for')
             return predicate()
 
+    tl = threading.local()
+
+    def _inside():
+        return getattr(tl, 'depth', 0) > 0
+
+    class _Real:
+        """marks the dynamic extent of a call into the real Queue implementation (its own attribute reads are not observations)"""
+        def __enter__(self):
+            tl.depth = getattr(tl, 'depth', 0) + 1
+
+        def __exit__(self, *a):
+            tl.depth -= 1
+
     class IQueue(RealQueue):
         def __init__(self, maxsize=0):
-            super().__init__(S.capacity if S.capacity is not None else maxsize)
+            with _Real():
+                super().__init__(S.capacity if S.capacity is not None else maxsize)
             self.not_empty, self.not_full, self.all_tasks_done = ICond(self.mutex), ICond(self.mutex), ICond(self.mutex)
+            self._vz_idx = len(S.queues)
             S.queues.append(self)
+
+        # code that looks at the queue's state directly (polling instead of join()) does so at a scheduling point
+        def _peek(self, what):
+            if not _inside() and not S.evaluating() and threading.get_ident() in S.threads:
+                S.peeks += 1
+                S.yield_(lambda: True, 'peek:%d:%s' % (self._vz_idx, what))
+
+        @property
+        def unfinished_tasks(self):
+            self._peek('unfinished')
+            return self.__dict__.get('_vz_unfinished', 0)
+
+        @unfinished_tasks.setter
+        def unfinished_tasks(self, v):
+            self.__dict__['_vz_unfinished'] = v
+
+        def qsize(self):
+            self._peek('qsize')
+            with _Real():
+                return RealQueue.qsize(self)
+
+        def empty(self):
+            self._peek('empty')
+            with _Real():
+                return RealQueue.empty(self)
+
+        def full(self):
+            self._peek('full')
+            with _Real():
+                return RealQueue.full(self)
 
         def put(self, item, *a, **k):
             timed = _timed(a, k)
-            S.yield_(lambda: timed or self.maxsize <= 0 or self.qsize() < self.maxsize, 'put')
-            if timed and 0 < self.maxsize <= self.qsize():
+            S.yield_(lambda: timed or self.maxsize <= 0 or self._n() < self.maxsize, 'put')
+            if timed and 0 < self.maxsize <= self._n():
                 S.timeouts_fired += 1
                 raise _queue.Full
-            return RealQueue.put(self, item)
+            with _Real():
+                return RealQueue.put(self, item)
 
         def get(self, *a, **k):
             timed = _timed(a, k)
-            S.yield_(lambda: timed or self.qsize() > 0, 'get')
-            if timed and self.qsize() == 0:
+            S.yield_(lambda: timed or self._n() > 0, 'get')
+            if timed and self._n() == 0:
                 S.timeouts_fired += 1
                 raise _queue.Empty
-            item = RealQueue.get(self)
+            with _Real():
+                item = RealQueue.get(self)
             S.note_got(item)
             return item
+
+        def _n(self):
+            return len(self.queue)
 
         def put_nowait(self, item):
             return self.put(item, block=False)
@@ -260,11 +328,13 @@ def instrument(S):
 
         def task_done(self):
             S.yield_(lambda: True, 'task_done')
-            return RealQueue.task_done(self)
+            with _Real():
+                return RealQueue.task_done(self)
 
         def join(self):
-            S.yield_(lambda: self.unfinished_tasks == 0, 'join')
-            return RealQueue.join(self)
+            S.yield_(lambda: self.__dict__.get('_vz_unfinished', 0) == 0, 'join')
+            with _Real():
+                return RealQueue.join(self)
 
     class IThread(RealThread):
         def __init__(self, group=None, target=None, name=None, args=(), kwargs=None, **kw):
@@ -292,4 +362,12 @@ def instrument(S):
             RealThread.start(self)
             S.wait_child_registered(n)
 
+    def vsleep(seconds):
+        """time.sleep under the scheduler: no real time passes, the caller merely lets the others run (or not)"""
+        if threading.get_ident() in S.threads and not S.evaluating():
+            S.sleeps += 1
+            S.yield_(lambda: True, 'sleep')
+        else:
+            _real_sleep(seconds)
+    S.vsleep = vsleep
     return IQueue, IThread
